@@ -17,77 +17,16 @@ const kernelsPkg = "amd/kernels"
 func init() { register("C08", runC08) }
 
 func runC08(c *core.Ctx) core.Meta {
-	c.Load(kernelsPkg, driverPkg, emuPkg, cuPkg)
+	c.Load(kernelsPkg, driverPkg, emuPkg, cuPkg, dispPkg)
 	c.BuildSSA()
 	prov := core.NewLocalProv(c)
 	prov.InlinePure = true // a counting formula moved into an expression helper keeps its provenance
-	dim := regexp.MustCompile(`GridSize([XYZ])`)
 
 	// ---------------- R08.1 one work-group counting formula ----------------
-	st1 := c.Rule("R08.1", "every place that computes the number of work-groups of a dimension (grid builder, the multi-GPU filter and distribution in the driver, the work-group-count registers of both modes) uses ceil(grid/wg) in one of the forms (g-1)/w+1 or (g+w-1)/w, with grid size and work-group size of the same dimension", 12)
-	for _, rel := range []string{kernelsPkg, driverPkg, emuPkg, cuPkg} {
-		for _, fn := range c.SrcFuncs(rel) {
-			for _, b := range fn.Blocks {
-				for _, in := range b.Instrs {
-					q, ok := in.(*ssa.BinOp)
-					if !ok || q.Op != token.QUO {
-						continue
-					}
-					num, den := prov.Of(q.X), prov.Of(q.Y)
-					if !strings.Contains(num, "GridSize") || !strings.Contains(den, "WorkgroupSize") {
-						continue
-					}
-					st1.Instances++
-					c.MarkAnalysed(fn)
-					d := dim.FindStringSubmatch(num)
-					okDim := d != nil && strings.Contains(den, "WorkgroupSize"+d[1]) && !regexp.MustCompile(`WorkgroupSize[^`+d[1]+`]`).MatchString(den)
-					st1.Ob(okDim)
-					if !okDim {
-						c.ReportAt("R08.1", fn, q.Pos(), "count:dimension-mix", "a work-group count divides "+short(num)+" by "+short(den)+": grid size and work-group size of different dimensions")
-					}
-					// form A: (g-1)/w, result +1 ; form B: ((g+w)-1)/w
-					formA := core.ProvMatch(regexp.MustCompile(`^\(.*GridSize[XYZ]\)?-1\)$`), num) && !strings.Contains(num, "WorkgroupSize")
-					formB := strings.Contains(num, "WorkgroupSize") && core.ProvMatch(regexp.MustCompile(`\+.*WorkgroupSize[XYZ].*-1\)$`), num)
-					okForm := false
-					if formA {
-						// the quotient must be incremented by 1
-						var uses func(v ssa.Value, d int)
-						uses = func(v ssa.Value, d int) {
-							if v.Referrers() == nil || d > 3 {
-								return
-							}
-							for _, r := range *v.Referrers() {
-								switch t := r.(type) {
-								case *ssa.BinOp:
-									if t.Op == token.ADD {
-										if k, isC := core.ConstInt(t.Y); isC && k == 1 {
-											okForm = true
-										}
-										if k, isC := core.ConstInt(t.X); isC && k == 1 {
-											okForm = true
-										}
-									}
-								case *ssa.Convert:
-									uses(t, d+1) // int((g-1)/w) + 1
-								case *ssa.ChangeType:
-									uses(t, d+1)
-								}
-							}
-						}
-						uses(q, 0)
-					}
-					if formB {
-						okForm = true
-					}
-					st1.Ob(okForm)
-					st1.Sample("%s: %s / %s", core.FuncName(fn), short(num), short(den))
-					if !okForm {
-						c.ReportAt("R08.1", fn, q.Pos(), "count:form", "the number of work-groups is computed as "+short(num)+" / "+short(den)+", which is not ceil(grid/wg) in a recognised form: partial work-groups are not counted (or one too many is announced)")
-					}
-				}
-			}
-		}
-	}
+	checkWGCountFormula(c, prov, "R08.1", []string{kernelsPkg, driverPkg, emuPkg, cuPkg}, 12)
+
+	// ---------------- R08.5 every work-group is handed out once by the placement algorithms (c09.go) ----------------
+	checkPlacementSiblings(c, NewPkgInfo(c, dispPkg), prov, "R08.5")
 
 	// ---------------- R08.2 partial work-group sizes ----------------
 	st2 := c.Rule("R08.2", "the current size of a work-group in each dimension is min(grid - id*wgSize, wgSize) of that same dimension; work-items are spawned up to the current sizes; enumeration advances x fastest, then y, then z", 6)
@@ -413,6 +352,77 @@ func checkWGDistribution(c *core.Ctx, prov *core.Prov, rule string) {
 		st4.Sample("distributeWGToGPUs: cumulative ranges=%v, coverage test=%v", cum, guard)
 		if !(cum && guard) {
 			c.ReportAt(rule, fn, fn.Pos(), "distribution", "the per-GPU work-group ranges are not cumulative sums checked to cover the total number of work-groups")
+		}
+	}
+
+}
+
+// checkWGCountFormula: one work-group counting formula (R08.1; shared with C18 as R18.9 for
+// the driver's distribution over GPUs).
+func checkWGCountFormula(c *core.Ctx, prov *core.Prov, rule string, pkgs []string, floor int) {
+	dim := regexp.MustCompile(`GridSize([XYZ])`)
+	st1 := c.Rule(rule, "every place that computes the number of work-groups of a dimension (grid builder, the multi-GPU filter and distribution in the driver, the work-group-count registers of both modes) uses ceil(grid/wg) in one of the forms (g-1)/w+1 or (g+w-1)/w, with grid size and work-group size of the same dimension", floor)
+	for _, rel := range pkgs {
+		for _, fn := range c.SrcFuncs(rel) {
+			for _, b := range fn.Blocks {
+				for _, in := range b.Instrs {
+					q, ok := in.(*ssa.BinOp)
+					if !ok || q.Op != token.QUO {
+						continue
+					}
+					num, den := prov.Of(q.X), prov.Of(q.Y)
+					if !strings.Contains(num, "GridSize") || !strings.Contains(den, "WorkgroupSize") {
+						continue
+					}
+					st1.Instances++
+					c.MarkAnalysed(fn)
+					d := dim.FindStringSubmatch(num)
+					okDim := d != nil && strings.Contains(den, "WorkgroupSize"+d[1]) && !regexp.MustCompile(`WorkgroupSize[^`+d[1]+`]`).MatchString(den)
+					st1.Ob(okDim)
+					if !okDim {
+						c.ReportAt(rule, fn, q.Pos(), "count:dimension-mix", "a work-group count divides "+short(num)+" by "+short(den)+": grid size and work-group size of different dimensions")
+					}
+					// form A: (g-1)/w, result +1 ; form B: ((g+w)-1)/w
+					formA := core.ProvMatch(regexp.MustCompile(`^\(.*GridSize[XYZ]\)?-1\)$`), num) && !strings.Contains(num, "WorkgroupSize")
+					formB := strings.Contains(num, "WorkgroupSize") && core.ProvMatch(regexp.MustCompile(`\+.*WorkgroupSize[XYZ].*-1\)$`), num)
+					okForm := false
+					if formA {
+						// the quotient must be incremented by 1
+						var uses func(v ssa.Value, d int)
+						uses = func(v ssa.Value, d int) {
+							if v.Referrers() == nil || d > 3 {
+								return
+							}
+							for _, r := range *v.Referrers() {
+								switch t := r.(type) {
+								case *ssa.BinOp:
+									if t.Op == token.ADD {
+										if k, isC := core.ConstInt(t.Y); isC && k == 1 {
+											okForm = true
+										}
+										if k, isC := core.ConstInt(t.X); isC && k == 1 {
+											okForm = true
+										}
+									}
+								case *ssa.Convert:
+									uses(t, d+1) // int((g-1)/w) + 1
+								case *ssa.ChangeType:
+									uses(t, d+1)
+								}
+							}
+						}
+						uses(q, 0)
+					}
+					if formB {
+						okForm = true
+					}
+					st1.Ob(okForm)
+					st1.Sample("%s: %s / %s", core.FuncName(fn), short(num), short(den))
+					if !okForm {
+						c.ReportAt(rule, fn, q.Pos(), "count:form", "the number of work-groups is computed as "+short(num)+" / "+short(den)+", which is not ceil(grid/wg) in a recognised form: partial work-groups are not counted (or one too many is announced)")
+					}
+				}
+			}
 		}
 	}
 
